@@ -66,9 +66,19 @@ MANIFEST = dict(
          "literal spelling) give the same comprehensions through get, item access and first (token level, both values of "
          "return_lists: xa_star_list_root, xa_pred_list_root in Proofs/XPathAudit.lean, over the loop of n0list._find - "
          "xa_findL_loop); the audit's witnesses, an indexed / starred / conditioned P in front of an inner predicate included, "
-         "are evaluated in C06_list_root_example. Differential only: index spellings with blanks inside the brackets, "
-         "a record list DEEPER in an n0list-rooted tree (P starting with an index: 15 % of the generated trees keep a list root, "
-         "all forms and chained selections, evaluator and model stream), a scalar `items` "
+         "are evaluated in C06_list_root_example. A record list DEEPER in an n0list-rooted tree (canonical P starting with an "
+         "index, `[2]/a/b`, `[0][1]`, `[1]/c[0]`; any depth): C06_star_list_deep (`P[*]/f`, `P/f`) and C06_pred_list_deep "
+         "(`P[k op v]/f`, `P/k[text() op v]/../f`), each with and without the leading '/', through get, item access and first "
+         "(xld_walk in Proofs/XPathListDeep.lean: the walk that starts in n0list._find ends in the dict-side search or, for a P "
+         "of indexes only, still in n0list._find at the record list; token level xld_star_spelled / xld_pred_spelled for any "
+         "index spelling, both values of return_lists); C06_star_list_deep_example, C06_pred_list_deep_example evaluate the "
+         "model on paths run against the implementation. CHAINED selections in an n0list-rooted tree: C06_chained_list_deep "
+         "(`P[k1 op v1]/items[k2 op v2]/f`, P starting with an index) and C06_chained_list_root (the root list is the outer "
+         "record list), get / item access (return_lists=True contributions) and first (return_lists=False contributions), "
+         "`items` a list of dict records or one dict record (xld_chained_spelled, xld_chained_root); "
+         "C06_chained_list_deep_example. Differential only: index spellings with blanks inside the brackets, "
+         "non-canonical spellings of P at string level in an n0list-rooted tree (15 % of the generated "
+         "trees keep a list root, all forms and chained selections, evaluator and model stream), a scalar `items` "
          "(fix C06-h: a single value does not satisfy a condition, that parent contributes nothing - before, IndexError left the "
          "fan-out loop and hid the selections of all other parents; C06_scalar_inner_example; 20 % of the generated order lists "
          "carry scalar `items` in some parents). The "
